@@ -35,6 +35,7 @@ type tcase struct {
 }
 
 const patRadix = "radix_min_max_after_delete_prefix"
+const patRhhEmpty = "rhh_len_ignores_empty_key"
 
 func fail(i int, msg string, got, want interface{}) rt.Result { return rt.Fail(i, msg, got, want) }
 
@@ -73,6 +74,7 @@ func runRhh(c *tcase, rng *rand.Rand) rt.Result {
 	m := rhh.NewHashMap(opts[(c.Conc/4)%len(opts)])
 	evals := 0
 	grew := false
+	var pending *rt.Result
 	cap0 := m.Cap()
 	for i, s := range c.Steps {
 		var exp struct {
@@ -117,7 +119,24 @@ func runRhh(c *tcase, rng *rand.Rand) rt.Result {
 		}
 		evals++
 		if int(m.Len()) != exp.Len {
-			return fail(i, "rhh: Len", m.Len(), exp.Len)
+			r := fail(i, fmt.Sprintf("rhh: Len after %s", s.A), m.Len(), exp.Len)
+			// Known finding rhh_len_ignores_empty_key: insert() treats an unused slot (nil key) as a match for the
+			// empty key and reports "overwritten", so Put("") is stored and found by Get but not counted by Len.
+			// Predicate: the empty key is in the map and Len is exactly one too small. The case goes on being compared.
+			emptyIn := false
+			for j, k := range keys {
+				if len(k) == 0 && exp.Get[j] != 0 {
+					emptyIn = true
+				}
+			}
+			if emptyIn && int(m.Len()) == exp.Len-1 {
+				r.Patterns = []string{patRhhEmpty}
+				if pending == nil {
+					pending = &r
+				}
+			} else {
+				return r
+			}
 		}
 		ks := m.Keys()
 		sort.Slice(present, func(a, b int) bool { return bytes.Compare(present[a], present[b]) < 0 })
@@ -129,6 +148,9 @@ func runRhh(c *tcase, rng *rand.Rand) rt.Result {
 				return fail(i, "rhh: Keys() is not the sorted key set of the map", fmt.Sprintf("%q", ks), fmt.Sprintf("%q", present))
 			}
 		}
+	}
+	if pending != nil {
+		return *pending
 	}
 	return rt.Result{OK: true, Evals: evals, Nontrivial: grew}
 }
